@@ -43,11 +43,11 @@ macro_rules | `(tactic| pres_leaf) => `(tactic| exact pres_chanGet' _)
 /-- `_setReadyState`: closing a channel, or moving a channel that is not closed, keeps the accounting -/
 theorem wp_setReady_buf {s : St} (hI : BufInv s.1) (i st : Nat)
     (h : st = 3 ∨ ∀ c, s.1.chans[i]? = some c → c.ready ≠ 3) :
-    WP (setReady i st) (fun _ s' => BufInv s'.1) s := by
+    WP (setReady i st) (fun r s' => IsOk r → BufInv s'.1) s := by
   unfold setReady
   wp_simp
   cases hc : s.1.chans[i]? with
-  | none => simp only; exact hI
+  | none => simp only; exact fun h => h.elim
   | some c =>
     simp only
     have key : BufInv { s.1 with chans := s.1.chans.set i { c with ready := st } } := by
@@ -60,16 +60,16 @@ theorem wp_setReady_buf {s : St} (hI : BufInv s.1) (i st : Nat)
     · wp_simp
       split
       · split
-        · wp_simp; exact key
+        · wp_simp; exact WP.after_buf (buf_react 0 i) key
         · split
-          · wp_simp; exact key
-          · wp_simp; exact key
-      · wp_simp; exact key
-    · wp_simp; exact hI
+          · wp_simp; exact WP.after_buf (buf_react 1 i) key
+          · wp_simp; exact fun _ => key
+      · wp_simp; exact fun _ => key
+    · wp_simp; exact fun _ => hI
 
 theorem buf_setReady3 (i : Nat) : Pres bufSpec (setReady i 3) := by
   apply Pres.intro; intro s hI
-  exact WP.mono (wp_setReady_buf hI i 3 (Or.inl rfl)) (fun _ _ h _ => ⟨h, trivial⟩)
+  exact WP.mono (wp_setReady_buf hI i 3 (Or.inl rfl)) (fun _ _ h hk => ⟨h (hk trivial), trivial⟩)
 macro_rules | `(tactic| pres_leaf) => `(tactic| exact buf_setReady3 _)
 
 theorem buf_dcClosed (sid : Nat) : Pres bufSpec (dcClosed sid) := by
@@ -92,10 +92,11 @@ theorem buf_dcClose (i : Nat) : Pres bufSpec (dcClose i) := by
         simp at hg
         omega
       apply WP.bind_of (wp_setReady_buf hI i 2 (Or.inr hpre))
-      intro r s1 hI1
+      intro r s1 hI1'
       cases r with
       | error k => exact fun h => (h trivial).elim
       | ok u =>
+        have hI1 := hI1' trivial
         simp only
         wp_head
         split
@@ -114,7 +115,7 @@ theorem buf_dcClose (i : Nat) : Pres bufSpec (dcClose i) := by
                 rw [h2, qsum_filter_ne _ _ _ hj]
                 rw [h1] at hx
                 exact hI1.2 j x hx hx3
-            exact WP.mono (wp_setReady3_X (s := (e', l')) this) (fun _ _ h _ => ⟨h, trivial⟩)
+            exact WP.mono (wp_setReady3_X (s := (e', l')) this) (fun _ _ h hk => ⟨h (hk trivial), trivial⟩)
           split
           · split
             · wp_head; exact fun h => (h trivial).elim
@@ -152,7 +153,7 @@ theorem buf_setState (st : AState) : Pres bufSpec (setState st) := by
         intro r s1 h1
         cases r with
         | error k => exact fun h => (h trivial).elim
-        | ok u => simp only; wp_head; exact fun _ => ⟨h1, trivial⟩
+        | ok u => simp only; wp_head; exact fun _ => ⟨h1 trivial, trivial⟩
       · wp_head; exact fun _ => ⟨hI, trivial⟩
   · split
     · -- CLOSED
@@ -264,8 +265,8 @@ theorem buf_dcReceive (sid ppid : Nat) (data : Bytes) : Pres bufSpec (dcReceive 
               | some c2 =>
                 (try simp only)
                 (try wp_head)
-                intro _
-                exact ⟨bufInv_set hI2 hc2 rfl hI2.1 (fun _ _ => rfl) (fun h3 => ⟨h3, rfl⟩), trivial⟩
+                refine WP.pres_after (S := bufSpec) (s1 := (_, _)) (buf_react 4 _) ?_ trivial
+                exact bufInv_set hI2 hc2 rfl hI2.1 (fun _ _ => rfl) (fun h3 => ⟨h3, rfl⟩)
             · wp_head; exact fun _ => ⟨hI2, trivial⟩
     · split
       · split
@@ -278,7 +279,7 @@ theorem buf_dcReceive (sid ppid : Nat) (data : Bytes) : Pres bufSpec (dcReceive 
             simp only
             split
             · rename_i h0
-              refine WP.mono (wp_setReady_buf hI i 1 (Or.inr ?_)) (fun _ _ h _ => ⟨h, trivial⟩)
+              refine WP.mono (wp_setReady_buf hI i 1 (Or.inr ?_)) (fun _ _ h hk => ⟨h (hk trivial), trivial⟩)
               intro c' hc'; rw [hc] at hc'; cases hc'; omega
             · wp_head; exact fun _ => ⟨hI, trivial⟩
       · wp_head; exact fun _ => ⟨hI, trivial⟩
@@ -292,7 +293,11 @@ theorem buf_dcReceive (sid ppid : Nat) (data : Bytes) : Pres bufSpec (dcReceive 
         simp only
         repeat' split
         all_goals (try wp_head)
-        all_goals first | exact fun _ => ⟨hI, trivial⟩ | (intro _; buf_keep hI)
+        all_goals first
+          | exact fun _ => ⟨hI, trivial⟩
+          | (intro _; buf_keep hI)
+          | (refine WP.pres_after (S := bufSpec) (s1 := (_, _)) (buf_react 3 _) ?_ trivial
+             exact bufInv_queue hI rfl hI.1 (fun _ => rfl))
 macro_rules | `(tactic| pres_leaf) => `(tactic| exact buf_dcReceive _ _ _)
 
 end Aiortc.Sctp
